@@ -331,6 +331,13 @@ func (c *Ctx) errPropagated(call ssa.CallInstruction) (bool, string) {
 				continue
 			}
 		}
+		// the error must still be the one that is tested when it is non-nil: a later
+		// call that overwrites the variable before the test (a loop that goes on
+		// after a failure) loses it
+		qq := PathQuery{From: call.(ssa.Instruction), NonNil: map[ssa.Value]bool{e: true}, Cut: func(i ssa.Instruction) bool { return returnsErr(e, i) }, Goal: IsReturn}
+		if p := qq.Find(); p != nil {
+			return false, "a path from the call to the return at " + c.P.InstrPos(p[len(p)-1]) + " does not hand a non-nil error back (it is overwritten or skipped before it is tested)"
+		}
 		return true, "non-nil edge returns the error"
 	}
 	return false, "no nil test of the error found"
@@ -820,4 +827,9 @@ func (c *Ctx) calleeWith(from *ssa.Function, pred func(*ssa.Function) bool) *ssa
 		return from
 	}
 	return nil
+}
+
+func isBoolType(t types.Type) bool {
+	b, ok := t.Underlying().(*types.Basic)
+	return ok && b.Info()&types.IsBoolean != 0
 }
